@@ -337,6 +337,10 @@ def gen_op(rng, spec, sh):
         names = [n for n, _ in sp[2]]
         fields = dict(sp[2])
         r = rng.random()
+        if rng.random() < 0.07:
+            bad = bad_op(rng, path, sp)
+            if bad is not None:
+                return bad
         if r < 0.45:
             n = rng.choice(names)
             return ("set", path, n, gen_value(rng, fields[n]))
@@ -357,10 +361,56 @@ def gen_op(rng, spec, sh):
     if kind == "list":
         cur = sh_nav(sh, path)
         n = len(cur) if isinstance(cur, list) else 0
+        if sp is not None and sp[0] == "sub" and rng.random() < 0.07:
+            return ("badappend", path, rng.choice([5, "s", [1], None]))      # not a configuration: ValueError
         if rng.random() < 0.6 or n == 0:
             return ("append", path, gen_value(rng, sp))
         return ("setitem", path, rng.randint(0, n if rng.random() < 0.1 else n - 1), gen_value(rng, sp))
     return ("dset", path, rng.choice(KEYS), gen_value(rng, sp))
+
+
+def bad_values(f):
+    """values the field of this kind rejects, on assignment and (second list) in a loaded tree; [] = none modelled"""
+    if f[0] == "sub":
+        return [5, "s", [1], None], [5, "s", [1], None]
+    if f[0] == "list":
+        return [5, "s", {"a": 1}], [5]
+    if f[0] == "dict":
+        return [5, "s", [1]], [5]
+    return [], []
+
+
+def bad_op(rng, path, sp):
+    """an assignment / load the library rejects; the error is attached to the field's key (a sub-schema, a list / dict
+    field) -- the model stores nothing"""
+    cands = [(n, f) for n, f in sp[2] if f[0] != "any"]
+    if not cands:
+        return None
+    subs = [(n, f) for n, f in cands if f[0] == "sub"]
+    n, f = rng.choice(subs) if subs and rng.random() < 0.6 else rng.choice(cands)
+    on_set, on_load = bad_values(f)
+    if rng.random() < 0.6:
+        return ("badset", path, n, rng.choice(on_set))
+    return ("badload", path, {n: rng.choice(on_load)})
+
+
+def err_schema():
+    """sub-configurations at the root, nested, in a list item and as a config type; list and dict fields"""
+    inner = ("sub", False, [("x", ("any", ("tree", 1), "int"))], "schema", 3)
+    it_s = ("sub", False, [("n", ("any", ("tree", 0), "int")), ("deep", ("sub", False, [("y", ("any", ("tree", 2), "int"))], "schema", 5))],
+            "schema", 4)
+    ct = ("sub", False, [("w", ("any", ("tree", 1), "int")), ("cs", ("sub", False, [("z", ("any", None, "str"))], "schema", 7))], "ct", 6)
+    fields = [
+        ("db", ("sub", False, [("port", ("any", ("tree", 8), "port")), ("inner", inner)], "schema", 2)),
+        ("ct", ct),
+        ("items", ("list", it_s, ("tree", [{"n": 1}]))),
+        ("cts", ("list", ct, ("tree", [{}]))),
+        ("l", ("list", ("any", None, "int"), ("tree", [1]))),
+        ("u", ("list", None, ("tree", [1]))),
+        ("d", ("dict", None, ("tree", {"k": 1}))),
+        ("td", ("dict", ("any", None, "int"), ("tree", {"k": 1}))),
+    ]
+    return ("sub", False, fields, "schema", 0)
 
 
 READS = ["to_tree", "dumps", "asdict", "validate", "get_all_fields"]
@@ -529,6 +579,25 @@ def generate(rng, tier):
         cases.append({"schema": ms, "kind": "matrix", "events": [
             ("build",), ("build",), ("op", 0, ("set", [], "x1", [1, {"a": [2]}])), ("read", 0, rk), ("read", 1, rk),
             ("op", 0, ("set", [("a", "cts"), ("i", 0)], "x2", 5)), ("read", 0, rk), ("build",)]})
+    # rejected operations: the error names a sub-schema key (root, nested, list item, config type), a list / dict field
+    # or an undeclared key; raising AND rendering it must leave the schema alone
+    es = err_schema()
+    bad = []
+    for p_, n_ in (([], "db"), ([("a", "db")], "inner"), ([], "ct"), ([("a", "ct")], "cs"), ([("a", "items"), ("i", 0)], "deep"),
+                   ([("a", "cts"), ("i", 0)], "cs")):
+        for v_ in (5, "s", [1], None):
+            bad.append(("badset", p_, n_, v_))
+        bad.append(("badload", p_, {n_: 5}))
+        bad.append(("badload", p_, {n_: None}))
+    for n_ in ("l", "u"):
+        bad += [("badset", [], n_, 5), ("badset", [], n_, {"a": 1}), ("badload", [], {n_: 5})]
+    for n_ in ("d", "td"):
+        bad += [("badset", [], n_, 5), ("badset", [], n_, [1]), ("badload", [], {n_: 5})]
+    bad += [("badappend", [("a", "items")], 5), ("badappend", [("a", "cts")], None), ("badset", [], "items", [5]),
+            ("set", [], "nope", 1), ("set", [("a", "db")], "nope", 1), ("load", [], {"nope": 1}), ("reset", [], "nope"),
+            ("load", [("a", "db")], {"port": 9, "nope": 1})]
+    for o in bad:
+        cases.append({"schema": es, "kind": "matrix", "events": [("build",), ("build",), ("op", 0, o), ("read", 1, "validate"), ("build",)]})
     # templates handed out by callable defaults; secrets written with another method; options of every leaf class
     ts = template_schema()
     ttg = []
@@ -665,6 +734,8 @@ def g_path(p):
 
 
 def g_op(o):
+    if o[0].startswith("bad"):
+        o = (o[0][3:],) + tuple(o[1:])
     k = o[0]
     if k == "set":
         return "(OpSet %s %s %s)" % (g_path(o[1]), g_str(o[2]), g_tree(o[3]))
@@ -947,6 +1018,8 @@ def _nav(obj, path):
 def _apply(cfg, o):
     import cincoconfig as cc
     from cincoconfig.core import Config
+    if o[0].startswith("bad"):
+        o = (o[0][3:],) + tuple(o[1:])
     k = o[0]
     tgt = _nav(cfg, o[1])
     if k == "secload":
@@ -981,6 +1054,20 @@ def _apply(cfg, o):
         tgt[o[2]] = copy.deepcopy(o[3])
     else:
         raise Broken("bad op %r" % (o,))
+
+
+def _render(ex):
+    """what a caller does with an error: message, repr, path, arguments, traceback.  Rendering must not change anything
+    (checked by the snapshots taken after the event).  Never hasattr/getattr-with-default on a Schema here: only on the
+    exception object."""
+    import traceback
+    for fn in (str, repr, lambda e: getattr(e, "ref_path", None), lambda e: getattr(e, "friendly_name", None),
+               lambda e: [repr(a) for a in e.args], lambda e: [str(a) for a in e.args],
+               lambda e: traceback.format_exception(type(e), e, e.__traceback__), lambda e: str(e.__cause__), lambda e: str(e.__context__)):
+        try:
+            fn(ex)
+        except Exception:  # noqa
+            pass
 
 
 def _read(cfg, schema, kind):
@@ -1141,8 +1228,9 @@ def impl(c):
                 stats["ok"] += 1
             except Broken:
                 raise
-            except Exception:  # noqa
+            except Exception as ex:  # noqa
                 stats["err"] += 1
+                _render(ex)
             if e[0] == "read":
                 if _snap(cfgs[target]) != snaps[target]:
                     viol.append("event %d (observer %s) changed the configuration it was called on" % (n, e[2]))
@@ -1234,6 +1322,10 @@ def tags(c, obs):
         elif e[0] == "op":
             seen_op = True
             t.add("op:" + e[2][0])
+            if e[2][0].startswith("bad"):
+                o_ = e[2]
+                v_ = o_[3] if o_[0] == "badset" else (list(o_[2].values())[0] if o_[0] == "badload" else o_[2])
+                t.add("rejected-value:" + type(v_).__name__)
             t.add("depth:%d" % min(len(e[2][1]), 4))
             if e[1] != 0:
                 t.add("op-on-other")
